@@ -5,6 +5,7 @@
 -/
 import Sq.Machine
 import Sq.Proto
+import SqProps.C01
 namespace SqProps.C07
 open Sq
 
@@ -70,5 +71,12 @@ theorem lambda_captures_vm_only (ps : List Op) (body : Op) (vm : Nat) (k : List 
 theorem ret_does_not_charge (c : Cfg) (v : Val) (hc : c.ctl = .ret v) (hk : c.k = []) :
     (step c).w = c.w := by
   simp [step, stepCore, Cfg.core, Core.withBudgets, hc, hk]
+
+/-- **the number of operations charged equals the number of syntax-tree node evaluations**: after any number of
+    steps of any run, every VM's counter is its initial value plus the number of `ev` steps (node evaluations started)
+    on it — lambda bodies driven by map / filter / reduce / sorted / host callbacks included (C01.ops_counted) -/
+theorem ops_equal_node_evaluations (n : Nat) (c : Cfg) (hvalid : ∀ k, k < n → SqProps.C01.Valid (run k c)) (i : Nat) :
+    (opsOf (run n c).w)[i]? = ((opsOf c.w)[i]?).map (· + SqProps.C01.evCount n c i) :=
+  SqProps.C01.ops_counted n c hvalid i
 
 end SqProps.C07
